@@ -128,14 +128,16 @@ def _parse_tlc_line(line, res, replay_sink=None):
 
 
 def run_tlc(pid, module, cfg=None, env=None, workers=None, simulate=None, depth=None, seed=None,
-            timeout=3600, xmx="6g", coverage=True, replay_sink=None, tag=None, deque=False, extra=None):
+            timeout=3600, xmx="6g", coverage=True, replay_sink=None, tag=None, deque=False, extra=None, xss=None):
     """Run TLC on spec/<module>.tla with spec/<cfg>.cfg; returns TlcResult.
     env: IOEnv variables for the spec (paths to observation files etc.)."""
     cfg = cfg or module
     tag = tag or cfg
     meta = os.path.join(workdir(pid), "tlc_" + tag)
     shutil.rmtree(meta, ignore_errors=True)
-    jopts = "-Xss1g"
+    # thread stacks: deep recursive operators need more than the default, but 1 GB x (threads of a JVM) x (JVMs run in
+    # parallel) exhausts the address space TLC can commit and shows up as a spurious StackOverflowError
+    jopts = "-Xss" + (xss or "192m") + " -XX:CICompilerCount=2 -XX:ParallelGCThreads=2"
     if deque:
         jopts += " -Dtlc2.tool.queue.IStateQueue=StateDeque"
     e = dict(os.environ, JAVA_TOOL_OPTIONS=jopts)
@@ -314,7 +316,7 @@ def validate(pid, module, obs_path, cfg=None, chunk=20000, parallel=None, env=No
             cp = os.path.join(wd, "v_%s_%d.ndjson" % (module, k))
             open(cp, "w").writelines(buf)
             chunks.append((cp, k * chunk, len(buf)))
-    parallel = parallel or max(1, min(len(chunks), NCPU // workers))
+    parallel = parallel or max(1, min(len(chunks), NCPU // workers, 12))
     fails, states = [], [0]
     global LAST_STATS
     LAST_STATS = []
